@@ -18,6 +18,7 @@
 
 typedef struct step {
   int target;
+  int depth;  // 4 KiB frames of stack in use (pattern-filled, verified on resumption) below the switch
   uint64_t regs[6];
 } step_t;
 
@@ -124,6 +125,19 @@ static void do_switch(int self, int target, const uint64_t* vals) {
       fail("stack_clobbered", "context %d: stack word %d changed while it was suspended", self, i);
 }
 
+// switch while 'depth' further 4 KiB frames are live on the stack; every frame is verified after resumption.
+// (split stacks: the context is suspended on a later stack segment than the one it was created with)
+static long n_deep;
+static __attribute__((noinline)) void deep_switch(int self, int target, const uint64_t* vals, int depth) {
+  volatile uint64_t pad[512];
+  for (int i = 0; i < 512; i++) pad[i] = vals[i % 6] ^ (0xA5A5A5A5A5A5A5A5ull * (uint64_t)(i + depth + 1));
+  if (depth > 1) deep_switch(self, target, vals, depth - 1);
+  else do_switch(self, target, vals);
+  for (int i = 0; i < 512; i++)
+    if (pad[i] != (vals[i % 6] ^ (0xA5A5A5A5A5A5A5A5ull * (uint64_t)(i + depth + 1))))
+      fail("stack_clobbered", "context %d: stack word %d of a frame %d levels (4 KiB each) above the switch changed while it was suspended", self, i, depth);
+}
+
 static void drive(int self) {
   for (;;) {
     int s = step_idx;
@@ -138,7 +152,21 @@ static void drive(int self) {
     step_idx = s + 1;
     int target = steps[s].target;
     if (target == self) continue;
-    do_switch(self, target, steps[s].regs);
+    int d = steps[s].depth;
+#ifndef FIBER_STACK_SPLIT
+    // fixed-size stacks: stay inside the stack the context was given
+    if (self != 0) {
+      int room = stack_size[self] > 8192 + 4352 ? (int)((stack_size[self] - 8192) / 4352) : 0;
+      if (d > room) d = room;
+    }
+#endif
+    if (self == 0 && d > 100) d = 100;  // the driving pthread has a 1 MiB stack
+    if (d > 0) {
+      n_deep++;
+      deep_switch(self, target, steps[s].regs, d);
+    } else {
+      do_switch(self, target, steps[s].regs);
+    }
   }
 }
 
@@ -194,6 +222,10 @@ int main(int argc, char** argv) {
       if (i > 0 && i < MAXCTX) req_size[i] = b;
     } else if (!strcmp(w, "phase2")) {
       if (fscanf(f, "%d", &phase2_at) != 1) return 2;
+    } else if (!strcmp(w, "deep")) {
+      int i, d;
+      if (fscanf(f, "%d %d", &i, &d) != 2) return 2;
+      if (i >= 0 && i < MAXSTEPS && d >= 0 && d <= 256) steps[i].depth = d;
     } else if (!strcmp(w, "step")) {
       if (nsteps >= MAXSTEPS) return 2;
       step_t* s = &steps[nsteps++];
@@ -241,6 +273,6 @@ int main(int argc, char** argv) {
   }
   fiber_context_destroy(&main_ctx[0]);
   if (phase2_at >= 0) fiber_context_destroy(&main_ctx[1]);
-  printf("OK switches=%ld resumes=%ld fresh=%ld\n", n_switches, n_resumes, n_fresh);
+  printf("OK switches=%ld resumes=%ld fresh=%ld deep=%ld\n", n_switches, n_resumes, n_fresh, n_deep);
   return 0;
 }
